@@ -2,6 +2,7 @@
 from runner import Ob
 from rules import depend
 import sites as S
+import terms as T
 from core import show
 
 META = {
@@ -68,6 +69,18 @@ def run(ctx, crate):
     obs.append(depend.inherited(ctx, crate, "R18.stale", "analyze_dir x3", "a report left in the analysed directory is inert for the next run (C16's filter and whole-listing obligations)",
                                 "C16", lambda o: o.rule in ("R16.filter", "R16.loops", "R16.before", "R16.siblings"),
                                 example="two runs with the working directory inside the analysed tree"))
+    # the only directory a run may look at besides its inputs is the default ./contracts, and only when that IS the input (no --path, no path
+    # from a configuration file): probing it (and exiting) in any other situation makes the outcome depend on an unrelated directory
+    on = crate.bodies.get("opts::Opts::new")
+    if on is not None:
+        for s in S.call_sites(on):
+            if s.path.startswith(("std::fs::", "std::path::Path::")) and s.args and any(x == ("const", "str", "./contracts") or (x[0] == "obj" and x[2] == ("const", "str", "./contracts"))
+                                                                                    for a in s.args for x in T.subterms(a)):
+                g = S.block_guard(on, s.bb) or []
+                ok = bool(g) and all(any(a.startswith("!") and "Parser::parse().path" in a for a in c) and any(a.startswith("!") and "toml" in a for a in c) for c in g)
+                obs.append(Ob("R18.inputs", on.path, "the default directory ./contracts is looked at only when it is the directory to analyse", ok, site=s.where,
+                              expected="guarded by: no --path and no path from a configuration file", found=S.guard_str(g)[-200:],
+                              example="solstat --toml cfg.toml (cfg sets path) run from a directory without ./contracts"))
     writes = []
     inv = []
     for b in crate.bodies.values():
